@@ -50,9 +50,15 @@ for mf in sorted(glob.glob(os.path.join(V, "seeded", "*", "meta.json"))):
         if chk.get(tier, {}).get("exit") == 1:
             caught = f"`./check {m['property']}` {tier} ({chk[tier]['wall_s']} s)"
             break
+    note = notes.get(sid, "")
+    if m.get("caught_after"):
+        first = "missed at first (quick and thorough)" if caught == "—" else "caught"
+        a = chk.get("quick_after_strengthening", {})
+        caught = f"`./check {m['property']}` quick ({a.get('wall_s', '?')} s) after strengthening"
+        note = (note + " " if note else "") + f"{first}; {m['caught_after']}"
     if caught == "—" and chk:
         caught = "**missed** (quick and thorough)"
-    rows.append(f"| {sid} | {m['property']} | {desc} | {'yes' if m.get('suite_passes') else 'no'} | {m.get('demo_clean_exit')} → {m.get('demo_changed_exit')} | {caught} | {notes.get(sid, '')} |")
+    rows.append(f"| {sid} | {m['property']} | {desc} | {'yes' if m.get('suite_passes') else 'no'} | {m.get('demo_clean_exit')} → {m.get('demo_changed_exit')} | {caught} | {note} |")
 put("seeds", "\n".join(rows))
 open(os.path.join(V, "DESIGN.md"), "w").write(d)
 print("tables written")
